@@ -99,14 +99,15 @@ type unb struct {
 
 // worldObs is the projection of the application state the model talks about.
 type worldObs struct {
-	SD         bool
-	Owner      int
-	Start, End int64
-	Orig       [][2]*big.Int // denom id, amount (ascending)
-	Now        int64
-	Height     int64
-	DL, DF     *big.Int
-	Ent        []struct {
+	SD           bool
+	Owner        int
+	Start, End   *big.Int // ns
+	StartT, EndT time.Time
+	Orig         [][2]*big.Int // denom id, amount (ascending)
+	Now          int64
+	Height       int64
+	DL, DF       *big.Int
+	Ent          []struct {
 		Val int
 		L   []entryObs
 	}
@@ -120,6 +121,12 @@ type worldObs struct {
 	Out, Rew, Dep bal4
 	// observed schedule (QueryLockupAccountInfo.LockedCoins); nil = the query panicked
 	Locked [][2]*big.Int
+}
+
+// nsBig: nanoseconds since the Unix epoch, exact for every time.Time (UnixNano overflows after 2262)
+func nsBig(t time.Time) *big.Int {
+	x := new(big.Int).Mul(big.NewInt(t.Unix()), big.NewInt(1_000_000_000))
+	return x.Add(x, big.NewInt(int64(t.Nanosecond())))
 }
 
 func pairList(l [][2]*big.Int) string {
@@ -150,7 +157,7 @@ func (w *worldObs) coq() string {
 	return fmt.Sprintf("{| w_sd := %s; w_owner := %d; w_start := %s; w_end := %s; w_orig := %s; w_now := %s; w_height := %d; "+
 		"w_DL := %s; w_DF := %s; w_ent := %s; w_ab := %s; w_has_proxy := %s; w_pb := %s; "+
 		"w_stk_del := %s; w_stk_unb := %s; w_sc_del := %s; w_sc_unb := %s; w_out := %s; w_rew := %s; w_dep := %s |}",
-		emit.Bool(w.SD), w.Owner, emit.ZI(w.Start), emit.ZI(w.End), pairList(w.Orig), emit.ZI(w.Now), w.Height,
+		emit.Bool(w.SD), w.Owner, emit.Z(w.Start), emit.Z(w.End), pairList(w.Orig), emit.ZI(w.Now), w.Height,
 		emit.Z(w.DL), emit.Z(w.DF), emit.List(ents), w.AB.coq(), emit.Bool(w.HasProxy), w.PB.coq(),
 		emit.Z(w.StkDel), unbList(w.StkUnb), emit.Z(w.ScDel), unbList(w.ScUnb), w.Out.coq(), w.Rew.coq(), w.Dep.coq())
 }
@@ -309,13 +316,13 @@ func (s *scen) observe(ctx sdk.Context) *worldObs {
 		dl, df, orig := s.rawLockup(ctx)
 		w.DL, w.DF = dl, df
 		w.Orig = orig
-		w.Start, w.End = s.start.UnixNano(), s.end.UnixNano()
+		w.Start, w.End, w.StartT, w.EndT = nsBig(s.start), nsBig(s.end), s.start, s.end
 	} else {
 		w.DL, w.DF = dlC.AmountOf("urise").BigInt(), dfC.AmountOf("urise").BigInt()
 		for _, c := range origC {
 			w.Orig = append(w.Orig, [2]*big.Int{big.NewInt(int64(denomID(c.Denom))), c.Amount.BigInt()})
 		}
-		w.Start, w.End = st.UnixNano(), en.UnixNano()
+		w.Start, w.End, w.StartT, w.EndT = nsBig(*st), nsBig(*en), st.UTC(), en.UTC()
 		w.Locked = [][2]*big.Int{}
 		for _, p := range w.Orig {
 			w.Locked = append(w.Locked, [2]*big.Int{p[0], lockedC.AmountOf(denoms[p[0].Int64()-1]).BigInt()})
@@ -675,7 +682,7 @@ func (s *scen) emit(pre *worldObs, opTerm string, code int, post *worldObs, o op
 	e.cf.Add("CStep " + term)
 	info := map[string]any{"tag": tag, "op": o.Kind, "variant_self_delegatable": s.sd, "lockup": s.addr.String(),
 		"exec_sender": o.ES, "msg_sender": o.MS, "owner": pre.Owner, "code": code,
-		"now_ns": pre.Now, "start_ns": pre.Start, "end_ns": pre.End,
+		"now_ns": pre.Now, "start": pre.StartT.Format(time.RFC3339Nano), "end": pre.EndT.Format(time.RFC3339Nano),
 		"pre": map[string]any{"DL": pre.DL.String(), "DF": pre.DF.String(), "acct": pre.AB.strs(), "proxy": pre.PB.strs(), "stk_del": pre.StkDel.String(), "sc_del": pre.ScDel.String()},
 		"post": map[string]any{"DL": post.DL.String(), "DF": post.DF.String(), "acct": post.AB.strs(), "proxy": post.PB.strs(), "stk_del": post.StkDel.String(), "sc_del": post.ScDel.String(),
 			"out": post.Out.strs(), "rew": post.Rew.strs(), "dep": post.Dep.strs(), "now_ns": post.Now}}
@@ -1249,8 +1256,16 @@ func (s *scen) pickTime(r *emit.Rand, w *worldObs) time.Time {
 			marks = append(marks, t)
 		}
 	}
-	add(w.Start)
-	add(w.End)
+	// the chain never moves further than the horizon in one block (and is restarted long before
+	// block time leaves the int64 nanosecond range); far-future ends are approached, never crossed
+	const horizon = 40 * 365 * 24 * time.Hour
+	addT := func(t time.Time) {
+		if t.After(now) && t.Before(now.Add(horizon)) {
+			marks = append(marks, t)
+		}
+	}
+	addT(w.StartT)
+	addT(w.EndT)
 	for _, u := range w.StkUnb {
 		add(u.T)
 	}
@@ -1271,7 +1286,7 @@ func (s *scen) pickTime(r *emit.Rand, w *worldObs) time.Time {
 		}
 		return m
 	}
-	st, en := time.Unix(0, w.Start).UTC(), time.Unix(0, w.End).UTC()
+	st, en := w.StartT, w.EndT
 	var unbMarks []time.Time // completions of unbondings / recorded entries
 	for _, m := range marks {
 		if !m.Equal(st) && !m.Equal(en) {
@@ -1286,8 +1301,11 @@ func (s *scen) pickTime(r *emit.Rand, w *worldObs) time.Time {
 		if st.After(now) {
 			from = st
 		}
-		span := en.Sub(from)
-		if span > 0 {
+		span := en.Sub(from) // saturates at ~292 years
+		if span > horizon {
+			span = horizon
+		}
+		if span > 0 && from.Before(now.Add(horizon)) {
 			f := time.Duration(r.Int63n(int64(span)/10 + 1))
 			return from.Add(f + time.Duration(r.Int63n(1_000_000_000)))
 		}
@@ -1296,12 +1314,52 @@ func (s *scen) pickTime(r *emit.Rand, w *worldObs) time.Time {
 			return near(unbMarks[0])
 		}
 		return near(unbMarks[r.Intn(len(unbMarks))])
-	case c < 70 && st.After(now):
+	case c < 70 && st.After(now) && st.Before(now.Add(horizon)):
 		return near(st)
-	case c < 75 && en.After(now):
+	case c < 75 && en.After(now) && en.Before(now.Add(horizon)):
 		return near(en)
 	}
 	return now.Add(time.Duration(1+r.Intn(120))*time.Second + time.Duration(r.Int63n(1_000_000_000)))
+}
+
+// schedule regimes: lengths in years (1<<30 = up to the largest end time the account can store,
+// 9999-12-31T23:59:59.999999999Z), plus one second and about one block
+var regimeYears = []int{1, 100, 292, 293, 500, 1000, 1 << 30}
+var maxTime = time.Date(9999, 12, 31, 23, 59, 59, 999999999, time.UTC)
+
+func scheduleRegime(r *emit.Rand, now time.Time, lenIdx, startIdx int) (start, end time.Time) {
+	switch startIdx {
+	case 0:
+		start = now.AddDate(-10, 0, 0)
+	case 1:
+		start = now.AddDate(-100, 0, -3)
+	case 2:
+		start = now.Add(-36 * time.Hour)
+	case 3:
+		start = now // "at genesis": the account starts with the chain
+	case 4:
+		start = now.Add(90 * time.Second)
+	default:
+		start = now.AddDate(1, 0, 0)
+	}
+	start = start.Add(time.Duration(r.Int63n(1_000_000_000)))
+	switch {
+	case lenIdx == len(regimeYears):
+		end = start.Add(time.Second + time.Duration(r.Int63n(900_000_000)))
+	case lenIdx == len(regimeYears)+1:
+		end = start.Add(time.Duration(2+r.Intn(6)) * time.Second)
+	case regimeYears[lenIdx] == 1<<30:
+		end = maxTime
+		if r.Chance(1, 2) {
+			end = end.Add(-time.Duration(r.Int63n(1_000_000_000)))
+		}
+	default:
+		end = start.AddDate(regimeYears[lenIdx], 0, 0).Add(time.Duration(r.Int63n(1_000_000_000)))
+	}
+	if end.After(maxTime) {
+		end = maxTime
+	}
+	return start, end
 }
 
 // ---------------------------------------------------------------- Init cases
@@ -1310,7 +1368,7 @@ func optT(zero bool, t time.Time) string {
 	if zero {
 		return "None"
 	}
-	return emit.Some(emit.ZI(t.UnixNano()))
+	return emit.Some(emit.Z(nsBig(t)))
 }
 
 func (e *env) initCase(sd bool, start, end time.Time, startZero, endZero bool, funds []coin, tag string) *scen {
@@ -1334,7 +1392,7 @@ func (e *env) initCase(sd bool, start, end time.Time, startZero, endZero bool, f
 		w := s.observe(e.ctx())
 		s.dep = w.AB.sub(fundsBal(funds)) // anything the address held before its creation
 		w = s.observe(e.ctx())
-		obs = emit.Some(emit.Tuple(emit.ZI(w.Start), emit.ZI(w.End), pairList(w.Orig), emit.Z(w.DL), emit.Z(w.DF)))
+		obs = emit.Some(emit.Tuple(emit.Z(w.Start), emit.Z(w.End), pairList(w.Orig), emit.Z(w.DL), emit.Z(w.DF)))
 	}
 	e.cf.Add(fmt.Sprintf("CInit %s %s %s %s %s %s", optT(startZero, start), optT(endZero, end), emit.ZI(e.now().UnixNano()), coinsCoq(funds), emit.Bool(fundsOK), obs))
 	info := map[string]any{"tag": tag, "op": "Init", "variant_self_delegatable": sd, "start": start.String(), "end": end.String(), "start_zero": startZero, "end_zero": endZero, "funds": coinsStr(funds)}
@@ -1472,6 +1530,12 @@ func Run(seed int64, n int, outDir string) error {
 		}
 		start := e.now().Add(off + time.Duration(r.Int63n(1_000_000_000)))
 		end := start.Add(dur + time.Duration(r.Int63n(1_000_000_000)))
+		if r.Chance(1, 4) {
+			// the whole range of schedule lengths, from one second to the largest representable end
+			// time (quasi-permanent locks), started in the past, now, or in the future
+			start, end = scheduleRegime(r, e.now(), r.Intn(len(regimeYears)+2), r.Intn(6))
+			dur = 400 * day // a full-length history
+		}
 		startZero := r.Chance(1, 8)
 		endZero := r.Chance(1, 40)
 		if r.Chance(1, 40) {
@@ -1674,6 +1738,44 @@ func (e *env) corpus() error {
 		sc.doExec(opDesc{Kind: "WithdrawUnbonded", ES: es, MS: ms, Amt: big.NewInt(500_000)}, v.tag+":withdraw-unbonded")
 		// ... and after the withdrawal only with the reduced DelegatedLocking
 		staleThenFresh(sc, w0.DL, v.tag+":after-withdraw")
+	}
+
+	// (i) every schedule length (1, 100, 292, 293, 500, 1000 years, end at the largest representable
+	// time, one second, about a block) x start in the past / now / in the future, both kinds
+	// alternating: sends at the boundary amounts right away, after a day and after a year, and one
+	// delegation (the locked / free split uses the same schedule value)
+	k := 0
+	for lenIdx := 0; lenIdx < len(regimeYears)+2; lenIdx++ {
+		for _, startIdx := range []int{0, 3, 5} {
+			k++
+			sdv := k%2 == 0
+			tag := fmt.Sprintf("corpus:i-len%d-start%d", lenIdx, startIdx)
+			st, en := scheduleRegime(e.r, e.now(), lenIdx, startIdx)
+			sc := e.initCase(sdv, st, en, false, false, []coin{{dFEE, big.NewInt(1_000_000_000_000)}}, tag)
+			if sc == nil {
+				return fmt.Errorf("%s: init failed", tag)
+			}
+			es, ms = own(sc)
+			staleThenFresh(sc, nil, tag+":t0")
+			if sdv {
+				sc.doExec(opDesc{Kind: "SelfDelegate", ES: es, MS: ms, Amt: big.NewInt(300_000_000_000)}, tag+":self-delegate")
+			} else {
+				sc.doExec(opDesc{Kind: "Delegate", ES: es, MS: ms, Val: 2, D: dFEE, Amt: big.NewInt(300_000_000_000)}, tag+":delegate")
+			}
+			if err := sc.doBlock(e.safeTime(e.now().Add(day+time.Duration(e.r.Int63n(1_000_000_000)))), tag); err != nil {
+				return err
+			}
+			staleThenFresh(sc, nil, tag+":t+1d")
+			if err := sc.doBlock(e.safeTime(e.now().AddDate(1, 0, 0)), tag); err != nil {
+				return err
+			}
+			staleThenFresh(sc, nil, tag+":t+1y")
+		}
+		if e.now().Year() > 2060 { // keep block time small: a fresh chain
+			if err := e.newApp(); err != nil {
+				return err
+			}
+		}
 	}
 	return nil
 }
